@@ -185,3 +185,10 @@ def r03b(ctx, repo):
     for fi, what in ((tv, "number of grid points"), (se, "end year")):
         n += discretise.check_function(ctx, repo, fi, "R03b", what, follow_helpers=True, require_site=True)
     ctx.require(n >= 2, "R03b: fewer discretisation sites (%d) than confirmed (2)" % n)
+
+
+def thorough(ctx):
+    from . import sweeps
+
+    sweeps.discretisation_sweep(ctx, ctx.repo, "R03b")
+    sweeps.pyflakes_crossref(ctx, ctx.repo)
